@@ -25,6 +25,7 @@ Rounds: push(fails), push (clean retry), [fetch(ffails)], fetch (clean) into fre
 
 from __future__ import annotations
 
+import hashlib
 import itertools
 import os
 
@@ -1556,7 +1557,76 @@ def getitem_cases(ctx):
     return items
 
 
+def corrupted_remote_scenario(ctx):
+    """oracle only, fixed, every run: fetch from a remote store configured verify=True one of whose objects has rotted
+    (bytes no longer match the name).  The rotted object must not end up in the cache (it would be write-protected and
+    trusted from then on); the intact ones are fetched; the failure is counted.  Both remote store classes, file at the
+    root and inside a directory object.  (The theorems quantify over placements and upload-failure subsets of GENUINE
+    objects; this scenario is an audit of the verify flag `fetch` hands to transfer.) -> problems"""
+    from dvc_objects.fs.local import localfs
+
+    from dvc_data.hashfile.db import HashFileDB
+    from dvc_data.hashfile.db.local import LocalHashFileDB
+    from dvc_data.hashfile.hash_info import HashInfo
+    from dvc_data.hashfile.meta import Meta
+    from dvc_data.index import DataIndex, DataIndexEntry, ObjectStorage
+    from dvc_data.index.fetch import collect, fetch
+
+    problems = []
+    root = ctx.fresh("c18rot")
+    for rcls in (HashFileDB, LocalHashFileDB):
+        for cache_verify in (False, None):
+            base = os.path.join(root, f"{rcls.__name__}-{cache_verify}")
+            os.makedirs(base)
+            remote = rcls(localfs, os.path.join(base, "remote"), verify=True)
+            ckw = {} if cache_verify is None else {"verify": cache_verify}
+            cache = LocalHashFileDB(localfs, os.path.join(base, "cache"), **ckw)
+            contents = {("a",): b"alpha", ("d", "b"): b"beta", ("d", "c"): b"gamma"}
+            idx = DataIndex()
+            for k, v in contents.items():
+                oid = hashlib.md5(v).hexdigest()
+                sp = os.path.join(base, "src-" + oid)
+                with open(sp, "wb") as f:
+                    f.write(v)
+                remote.add(sp, localfs, oid)
+                idx[k] = DataIndexEntry(key=k, meta=Meta(size=len(v)), hash_info=HashInfo("md5", oid))
+            idx.storage_map.add_cache(ObjectStorage((), cache))
+            idx.storage_map.add_remote(ObjectStorage((), remote))
+            rotted = hashlib.md5(b"beta").hexdigest()
+            bp = remote.oid_to_path(rotted)
+            os.chmod(bp, 0o644)
+            with open(bp, "wb") as f:
+                f.write(b"ROT!")
+            tag = f"remote {rcls.__name__}(verify=True), cache verify={cache_verify}"
+            try:
+                res = fetch(collect([idx], "remote"))
+            except Exception as exc:  # noqa: BLE001
+                problems.append(f"{tag}: fetch raised {type(exc).__name__}: {exc}")
+                continue
+            held = {}
+            for d, _s, files in os.walk(cache.path):
+                for fn_ in files:
+                    if len(os.path.basename(d)) == 2 and len(fn_) == 30:
+                        with open(os.path.join(d, fn_), "rb") as f:
+                            held[os.path.basename(d) + fn_] = f.read()
+            wrong = {k: v for k, v in held.items() if hashlib.md5(v).hexdigest() != k}
+            if wrong:
+                problems.append(f"{tag}: the cache now holds {wrong!r} (rotted remote object accepted), fetch returned {res!r}")
+            for k, v in contents.items():
+                oid = hashlib.md5(v).hexdigest()
+                if oid != rotted and held.get(oid) != v:
+                    problems.append(f"{tag}: intact object of {k!r} not fetched, fetch returned {res!r}")
+            if isinstance(res, tuple) and len(res) == 2 and res[0] + res[1] > len(contents):
+                problems.append(f"{tag}: fetched + failed = {res!r} exceeds the {len(contents)} requested objects")
+    return problems
+
+
 def run(ctx):
+    for what in corrupted_remote_scenario(ctx)[:3]:
+        ctx.oracle_fail("C18:fetch-from-verifying-remote:rotted-object-accepted-or-intact-lost", what,
+                        {"scenario": "remote store verify=True with one rotted object (both store classes), cache verify False / "
+                                     "default; fetch(collect([index], 'remote'))"})
+    ctx.extra.setdefault("input_dimensions", {})["fault:rotted object on a verify=True remote (audit, oracle only)"] = 4
     items = []
     cases = [dict(c) for c in CORPUS]
     nbase = ctx.n(16, 100)
